@@ -333,6 +333,15 @@ def r10_12(ctx):
              "minimal configuration no longer carries", f.loc(again[0])) if again else ctx.ok(construct, f.loc(calls[0])))
 
 
+def r10_13(ctx):
+    """R10.13 a value the minimal file carries is accepted when it is read back: the float validity test accepts the spelling
+    the normaliser produces (C02 R02.11: `0.00001` is stored as `1e-05`; a test without exponent notation drops that
+    assignment on reload and the option falls back to its default)."""
+    from . import c02
+    from .common import delegate
+    delegate(ctx, c02.r02_11, lambda c: c.startswith("is_float/"))
+
+
 def rules():
-    return [("R10.12", r10_12, 1), ("R10.11", r10_11, 5), ("R10.10", r10_10, 1), ("R10.9", r10_9, 2), ("R10.8", r10_8, 1), ("R10.7", r10_7, 1), ("R10.6", r10_6, 3), ("R10.1", r10_1, 4), ("R10.1b", r10_1b, 3), ("R10.2", r10_2, 4), ("R10.2b", r10_2b, 2), ("R10.3", r10_3, 2),
+    return [("R10.13", r10_13, 1), ("R10.12", r10_12, 1), ("R10.11", r10_11, 5), ("R10.10", r10_10, 1), ("R10.9", r10_9, 2), ("R10.8", r10_8, 1), ("R10.7", r10_7, 1), ("R10.6", r10_6, 3), ("R10.1", r10_1, 4), ("R10.1b", r10_1b, 3), ("R10.2", r10_2, 4), ("R10.2b", r10_2b, 2), ("R10.3", r10_3, 2),
             ("R10.4", r10_4, 1), ("R10.5", r10_5, 5)]
